@@ -27,9 +27,12 @@ type c06Batch struct {
 type c06HS struct {
 	Priv   int
 	Lookup bool
-	ULen   int
+	ULen   int // username length in BYTES
 	Suite  int
 	Seed   int64
+	// Runes: 0 ASCII; 2 or 3: the name is built from 2- or 3-byte UTF-8
+	// characters, so its rune count is well below its byte length
+	Runes int
 }
 
 func init() {
@@ -208,6 +211,15 @@ func c06Exec(run *ev.Run, cs ev.Case) {
 			for _, lk := range []bool{false, true} {
 				for ul := 0; ul <= 40; ul++ {
 					c06Handshake(run, c06HS{Priv: priv, Lookup: lk, ULen: ul, Suite: (priv + ul) % 9, Seed: b.Seed})
+				}
+				if priv%5 == 0 {
+					for ul := 2; ul <= 48; ul++ {
+						for _, w := range []int{2, 3} {
+							if ul%w == 0 {
+								c06Handshake(run, c06HS{Priv: priv, Lookup: lk, ULen: ul, Suite: (priv + ul) % 9, Seed: b.Seed, Runes: w})
+							}
+						}
+					}
 				}
 			}
 		}
@@ -472,16 +484,23 @@ func c06Handshake(run *ev.Run, h c06HS) {
 	cs := ev.MkCase("hs", h)
 	r := rng(h.Seed+int64(h.Priv*100+h.ULen), "c06hs")
 	cfg := defaultCfg(r)
-	cfg.Username = randUser(r, h.ULen)
-	if h.ULen > 16 {
-		// the BMC knows the user under the first 16 characters: a truncating
-		// library would log in
-		cfg.Username = cfg.Username[:16]
+	full := randUser(r, h.ULen)
+	if h.Runes > 1 {
+		// byte length h.ULen, rune count h.ULen / h.Runes
+		alphabet := []string{"", "", "\u00e9\u00fc\u00f1\u0434\u0436", "\u7ba1\u7406\u20ac\u0939"}[h.Runes]
+		rs := []rune(alphabet)
+		full = ""
+		for len(full) < h.ULen {
+			full += string(rs[r.Intn(len(rs))])
+		}
 	}
-	user := cfg.Username
+	cfg.Username = full
 	if h.ULen > 16 {
-		user = cfg.Username + randUser(r, h.ULen-16)
+		// the BMC knows the user under the first 16 bytes: a truncating library
+		// would log in
+		cfg.Username = full[:16]
 	}
+	user := full
 	su := stdSuites()[h.Suite%9]
 	cfg.Suites = []refbmc.Suite{su}
 	e := NewEnv(cfg, memtr.Window)
@@ -501,7 +520,7 @@ func c06Handshake(run *ev.Run, h c06HS) {
 		run.Violation("C06:handshake:panic:"+panicSite(st), fmt.Sprintf("%s: %v\n%s", desc, pv, trimStack(st)), cs, nil)
 		return
 	}
-	run.Nontrivial(fmt.Sprintf("hs|%d|%v|%d", h.Priv, h.Lookup, h.ULen))
+	run.Nontrivial(fmt.Sprintf("hs|%d|%v|%d|%d", h.Priv, h.Lookup, h.ULen, h.Runes))
 	var sawRAKP1 bool
 	for _, evn := range e.BMC.Events() {
 		run.Event("datagrams-parsed", 1)
